@@ -712,6 +712,10 @@ class ShardCtx:
         self._w = None
         self._nfile = 0
         self.replay_budget = 6
+        self._failing = []
+        self._failing_before = ()
+        self._failing_rate = 0.0
+        self._frng = random.Random("failing/%s/%s/%d/%d" % (prop, tier, seed, index))
 
     # -- worker
     @property
@@ -720,7 +724,23 @@ class ShardCtx:
             self._w = Worker(self.variant, self.scratch)
         return self._w
 
+    def failing_calls_first(self, calls, before, rate=0.06):
+        """calls: [(verb, args)] expected to fail (damaged or foreign input); before: the verbs under test. From now on a call of one
+        of those verbs is, with probability `rate`, preceded by one of the failing calls in the same worker process: state that a
+        failed call leaves behind (a thread-local or static buffer, decompressor, cache, position) then meets the call under test,
+        whose result is judged as always. The failing calls themselves are not judged here (C17 / C18 do that)."""
+        self._failing = list(calls)
+        self._failing_before = tuple(before)
+        self._failing_rate = rate
+
     def call(self, verb, *args, input_bytes=0, limit="auto", timeout=None, progress=None, case_cpu_s=None):
+        if self._failing and verb in self._failing_before and self._frng.random() < self._failing_rate:
+            fv, fa = self._frng.choice(self._failing)
+            fr = self.w.call(fv, *fa, limit=alloc_limit(1 << 20))
+            if fr.ok and isinstance(fr.value, dict) and fr.value.get("handle") is not None:
+                self.w.call("drop", fr.value["handle"])
+            self.stats.monitor["failing_call_first:%s:%s" % (fv, fr.outcome.split(":")[0].split("(")[0])] += 1
+            self.stats.classes["history:after-a-failed-call"] += 1
         lim = alloc_limit(input_bytes) if limit == "auto" else limit
         rec = self.w.call(verb, *args, limit=lim, timeout=timeout, progress=progress, case_cpu_s=case_cpu_s)
         self.stats.variants[self.variant] += 1
